@@ -17,6 +17,14 @@ func (w *Worker) crossCheck(pc *PC, extra []*Term, want string) string {
 	if !w.cfg.XCheck {
 		return ""
 	}
+	// every sat verdict is cross-checked; unsat verdicts are sampled (the first xcheckSample per
+	// worker), since they are the overwhelming majority and each costs a second solver run
+	if want == "unsat" {
+		if w.nXUnsat >= xcheckSample {
+			return "not sampled"
+		}
+		w.nXUnsat++
+	}
 	if w.xsol == nil {
 		w.xsol = NewSolver(CVC5, w.tc, w.cfg.TimeoutMs)
 	}
@@ -30,12 +38,15 @@ func (w *Worker) crossCheck(pc *PC, extra []*Term, want string) string {
 		w.st.XQueries++
 		r2 := w.xsol2.CheckPC(pc, extra...)
 		out += " z3new:" + r2
-		if r2 != want {
+		if r2 != want && r2 != "unknown" {
 			return "DISAGREE " + out
 		}
 	}
-	if r != want {
+	if r != want && r != "unknown" {
 		return "DISAGREE " + out
+	}
+	if r == "unknown" {
+		w.st.XUnknown++
 	}
 	return out
 }
@@ -88,7 +99,29 @@ func (w *Worker) model(s *State) (map[string]interface{}, error) {
 	return out, nil
 }
 
-func (w *Worker) recordViolation(s *State, label, finding string, xc string) {
+// preferQuietClock re-solves a satisfiable property query with every clock step forced to zero,
+// so that the witness does not depend on time passing inside the cycle (a native replay cannot
+// make the wall clock jump). Falls back to the unconstrained model.
+func (w *Worker) preferQuietClock(s *State, extra []*Term) {
+	var quiet []*Term
+	for _, in := range s.inputs {
+		if strings.HasPrefix(in.S, "clock.step") {
+			quiet = append(quiet, w.tc.Eq(in, w.tc.BV(64, 0)))
+		}
+	}
+	if len(quiet) == 0 || extra == nil {
+		return
+	}
+	w.oneShotVals = nil
+	if w.propCheck(s, append(append([]*Term(nil), extra...), quiet...)) == "sat" {
+		return
+	}
+	w.oneShotVals = nil
+	w.propCheck(s, extra) // restore a model of the original query
+}
+
+func (w *Worker) recordViolation(s *State, label, finding string, xc string, extra []*Term) {
+	w.preferQuietClock(s, extra)
 	m, err := w.model(s)
 	if err != nil {
 		w.st.Inconclusive = append(w.st.Inconclusive, "model extraction failed for "+label+": "+err.Error())
@@ -170,7 +203,7 @@ func (w *Worker) doAssert(s *State, label string, cond *Term) {
 		} else {
 			// re-establish the model on the primary solver (cross-check does not disturb it, but
 			// Values must follow a sat answer of w.sol)
-			w.recordViolation(s, label, "", xc)
+			w.recordViolation(s, label, "", xc, extra)
 		}
 	case "unsat":
 		xc := w.crossCheck(s.pc, extra, "unsat")
@@ -209,12 +242,17 @@ func (w *Worker) doAssert(s *State, label string, cond *Term) {
 			w.oneShotVals = nil
 		}
 		if s.abst == nil || w.propCheck(s, l2) == "sat" {
-			w.recordViolation(s, label, p.id, "")
+			w.recordViolation(s, label, p.id, "", l2)
 		}
 	}
 	// continue under the assumption that the assertion held (if the violation query was unsat the
 	// path condition already implies it and stays feasible)
 	if (r != "unsat" || len(knownPreds) > 0) && w.check(s.pc, cond) == "unsat" {
+		// the assertion cannot hold on this path (a certain violation, reported above): the path
+		// ends here, but the situations it reached still count as reached
+		for c := range s.covers {
+			w.st.Covers[c]++
+		}
 		panic(pathDead{})
 	}
 	s.pc = s.pc.push(cond)
@@ -383,3 +421,5 @@ func (w *Worker) propCheck(s *State, extra []*Term) string {
 	}
 	return r
 }
+
+const xcheckSample = 40
